@@ -99,9 +99,6 @@ func main() {
 		for _, engine := range []string{"sherpa", "olla"} {
 			for _, ct := range []string{"text/event-stream", "application/json", "application/x-ndjson"} {
 				for _, stall := range []int{60, 450} {
-					if stall > 300 && engine == "olla" {
-						continue // the olla engine's stall handling is C18's subject
-					}
 					for _, two := range []bool{false, true} {
 						sc := &scen.Scenario{Engine: engine, Balancer: "priority", Profile: "auto", Method: "POST", Path: "/olla/proxy/v1/chat/completions",
 							ReqBody: `{"stream":true}`, ReadTimeoutMs: 300}
